@@ -271,19 +271,7 @@ def _preprocess(ctx):
     else:
         ctx.undecided('SINK', 'sub_scrubber rewrites exactly the matched spans', 'neither rgx.sub(callback) nor a by-text replacement')
     # wildcards inside a replaced span
-    sc = list(ctx.fold.get('plss_preprocess', 'SCRUBBER_REGEXES')) + [ctx.fold.get('plss_preprocess', 'OCR_SCRUBBER')]
-    for rv in sc:
-        if not isinstance(rv, RegexVal):
-            raise AnalysisError("scrubber table entry is not a regex")
-        out = []
-        _wildcards(rx.parse(rv.pattern, rv.flags), out)
-        if out:
-            for w in sorted(set(out)):
-                ctx.violation('SINK', f"{rv.name}: wildcard {w} inside the replaced span",
-                              f"whatever matches {w} is deleted together with the Twp/Rge and never re-emitted or flagged",
-                              key=f"SINK|{rv.name}|wildcard|{w}", where=rv.module)
-        else:
-            ctx.ok('SINK', f"{rv.name}: the replaced span consists of Twp/Rge syntax only (no wildcard)")
+    scrubber_wildcards(ctx)
     # the spans of section / Twp/Rge references are cut out of the description
     # by the marker walk: a word wildcard inside those regexes swallows
     # arbitrary words without a flag
@@ -415,6 +403,24 @@ def _thresholds_and_tests(ctx):
                   f"(characters of the description are lost)", key="SINK|cleanup_desc|test-act", where=common.loc(cd, node))
     if n == 0:
         ctx.undecided('SINK', 'cleanup_desc cuts the text it has just tested', 'endswith / slice pair not recognised')
+
+
+def scrubber_wildcards(ctx, why=None):
+    """a wildcard inside a pattern whose whole match the preprocessor replaces
+    by the clean Twp/Rge deletes whatever it matched"""
+    sc = list(ctx.fold.get('plss_preprocess', 'SCRUBBER_REGEXES')) + [ctx.fold.get('plss_preprocess', 'OCR_SCRUBBER')]
+    for rv in sc:
+        if not isinstance(rv, RegexVal):
+            raise AnalysisError("scrubber table entry is not a regex")
+        out = []
+        _wildcards(rx.parse(rv.pattern, rv.flags), out)
+        if out:
+            for w in sorted(set(out)):
+                ctx.violation('SINK', f"{rv.name}: wildcard {w} inside the replaced span",
+                              why or f"whatever matches {w} is deleted together with the Twp/Rge and never re-emitted or flagged",
+                              key=f"SINK|{rv.name}|wildcard|{w}", where=rv.module)
+        else:
+            ctx.ok('SINK', f"{rv.name}: the replaced span consists of Twp/Rge syntax only (no wildcard)")
 
 
 def _sec_inside_words(ctx):
